@@ -32,7 +32,9 @@ out = ["## Seeded changes and the checks that catch them\n\n",
  "input), after which the change is caught and the unchanged tree is still silent. Exceptions, all recorded\n"
  "in the table: changes that really break another property than the one their author was given are caught\n"
  "by that property's check only (C19-d, -e, -g, -h, -l, -m; C01-j; C03-k; C02-n; C05-m; C10-n; C20-p; C10-r; C19-q; C19-r), and C19-n is not\n"
- "detected by design (it adds an inherent method and leaves the view that C19 speaks about intact).\n\n",
+ "detected by design (it adds an inherent method and leaves the view that C19 speaks about intact).\n"
+ "One miss is NOT closed: C04-u (found in the last minutes of the build time) breaks C04 through two edits on one `AuthorityMut` handle; C04's quick\n"
+ "tier takes a fresh handle per authority step and stays silent, C11's one-handle histories report it. The widening owed is to run C04's authority steps one-handle as well.\n\n",
  "| seeded | change (what it needs to manifest) | own check | all quick checks that alarm |\n|---|---|---|---|\n"]
 for name, m in rows:
     det = m.get('detection', 'caught as built')
